@@ -10,6 +10,7 @@ package main
 
 import (
 	"fmt"
+	"strings"
 	"go/types"
 
 	"golang.org/x/tools/go/ssa"
@@ -18,6 +19,24 @@ import (
 func (vc *VC) nativeModel(st *State, fn *ssa.Function, key string, args []Val, rt types.Type) (Val, bool) {
 	if isRandShuffle(fn) {
 		return vc.nativeShuffle(st, fn, args)
+	}
+	if strings.HasPrefix(key, "cryptobyte.(*Builder).AddUint") && strings.HasSuffix(key, "LengthPrefixed") && len(args) == 2 {
+		// golang.org/x/crypto/cryptobyte: AddUintNLengthPrefixed(f) calls f exactly once with a child
+		// builder and touches builder-private state only. When f is a closure of the function under
+		// contract that has its own (verified) contract, the call is the closure's contract applied to
+		// a fresh builder; otherwise the generic treatment of opaque calls applies.
+		if cl, ok := vc.closures[args[1].S]; ok && args[1].S != "" && len(cl.fn.Params) == 1 {
+			if ct := vc.lookupContract(cl.fn); ct != nil {
+				child := Val{T: cl.fn.Params[0].Type(), K: KPtr, S: vc.allocID(st)}
+				var fvNames []string
+				for _, f := range cl.fn.FreeVars {
+					fvNames = append(fvNames, f.Name())
+				}
+				vc.applyContract(st, ct, funcKey(cl.fn), cl.fn.Signature, fnPackage(cl.fn), []string{cl.fn.Params[0].Name()}, []Val{child}, fvNames, cl.bindings, nil)
+				vc.trustedUsed["native model: cryptobyte Builder.AddUintNLengthPrefixed calls its callback once (contract of closure "+funcKey(cl.fn)+" applied)"] = true
+				return Val{K: KUnit}, true
+			}
+		}
 	}
 	switch key {
 	case "slices.Contains":
